@@ -752,8 +752,8 @@ def _provby_lineage(case, k):
     if k >= len(xs):
         return False
     x = xs[k]
-    if x.get("adapt") is not None:
-        return False
+    if x.get("adapt") is not None and x["adapt"][0] != "delegate":
+        return False      # a custom __adapt__ that never reaches the built-in one
     return bool(x.get("provby")) or any(_provby_lineage(case, b) for b in x["bases"])
 
 
